@@ -3,7 +3,8 @@ package verifsim
 // Restricted JSON documents for JSON columns: an independent binary-JSON
 // writer (small and large storage formats) and the expected rendering.
 // Excluded on purpose: doubles (the printed exponent form is an
-// implementation choice), opaque values and strings containing quotes.
+// implementation choice), opaque values other than non-negative TIME, and
+// strings containing quotes.
 
 import (
 	"fmt"
@@ -19,6 +20,7 @@ const (
 	jInt
 	jUint
 	jString
+	jTime // an opaque MYSQL_TYPE_TIME scalar (CAST(TIME'..' AS JSON), TIMEDIFF(..) in a JSON_OBJECT): non-negative only
 )
 
 type jdoc struct {
@@ -33,6 +35,14 @@ type jdoc struct {
 }
 
 func genJSONDoc(s *Stream, depth int) jdoc {
+	if depth > 0 && s.Chance(1, 14) {
+		h, m, sec := genTimeParts(s)
+		us := 0
+		if s.Chance(1, 3) {
+			us = s.N(1000000)
+		}
+		return jdoc{Kind: jTime, U: (uint64(h)<<12|uint64(m)<<6|uint64(sec))<<24 | uint64(us)}
+	}
 	w := []int{2, 2, 2, 3, 2, 3}
 	if depth >= 2 {
 		w[0], w[1] = 0, 0
@@ -152,6 +162,9 @@ func jsonScalar(d *jdoc, large bool) (typ byte, inline bool, enc []byte) {
 		}
 	case jString:
 		return 12, false, append(jsonVarLen(len(d.S)), d.S...)
+	case jTime:
+		// opaque: field type (11 = TIME), variable length, the packed temporal value
+		return 15, false, append([]byte{11, 8}, leN(nil, d.U, 8)...)
 	}
 	panic("jsonScalar")
 }
@@ -279,6 +292,13 @@ func jsonExpected(d jdoc, top bool) string {
 			return "'\"" + d.S + "\"'"
 		}
 		return "'" + d.S + "'"
+	case jTime:
+		v := d.U >> 24
+		t := fmt.Sprintf("%02d:%02d:%02d", (v>>12)&0x3ff, (v>>6)&0x3f, v&0x3f)
+		if us := d.U & 0xffffff; us != 0 {
+			t += fmt.Sprintf(".%06d", us)
+		}
+		return "CAST('" + t + "' AS TIME(6))"
 	}
 	return ""
 }
